@@ -121,11 +121,30 @@ def gen_rwp(r, tier):
     return line, {"op": "rwp", "style": style, "n": n, "quat": quat, "circ": circ, "ratio": ratio}
 
 
+PRIOR_KINDS = {1, 6, 7, 9, 10, 12, 13}
+SEED1_KINDS = {11, 9, 12, 10, 13}            # constructor overloads without a seed: Resampling(1)
+DEFAULT_RATIO_KINDS = {10, 13}               # ResamplingWithPrior(init): prior_ratio_ = 0.5
+HANDOVER_KINDS = {2, 3, 4, 5, 6, 7, 12, 13}
+KIND_NAMES = {0: "Resampling(seed)", 11: "Resampling()", 2: "copy-constructed Resampling", 4: "move-constructed Resampling",
+              3: "move-assigned Resampling", 5: "copy-assigned Resampling", 1: "ResamplingWithPrior(init, ratio, seed)",
+              9: "ResamplingWithPrior(init, ratio)", 10: "ResamplingWithPrior(init)", 6: "move-constructed ResamplingWithPrior(init, ratio, seed)",
+              12: "move-constructed ResamplingWithPrior(init, ratio)", 7: "move-assigned ResamplingWithPrior(init, ratio, seed)",
+              13: "move-assigned ResamplingWithPrior(init)"}
+
+
+def seq_effective(kind, ratio, seed):
+    """configuration of the ORIGINAL object, which the object obtained by copy / move must keep"""
+    k = kind % 100
+    return (0.5 if k in DEFAULT_RATIO_KINDS else ratio), (1 if k in SEED1_KINDS else seed)
+
+
 def gen_seq(r, tier):
     """ONE resampling object serving several successive calls with different particle counts, layouts and weights
     (state carried across calls: only the generator)"""
-    kind = r.choice([0, 0, 0, 1, 1, 2, 3])
-    ratio = r.choice([0.0, 0.1, 0.25, 0.3, 0.5, 0.75]) if kind == 1 else 0.0
+    kind = r.choice([0, 0, 11, 2, 3, 4, 5, 1, 1, 9, 10, 6, 6, 7, 7, 12, 13])
+    ratio = r.choice([0.0, 0.1, 0.25, 0.3, 0.5, 0.75, 0.9]) if kind in PRIOR_KINDS else 0.0
+    if kind in HANDOVER_KINDS and r.random() < 0.4:
+        kind += 100                                   # hand-over after the first call
     seed = r.randrange(1, 2 ** 32)
     ncalls = r.randint(2, 5)
     shape = r.choice(["grow", "shrink", "mixed", "mixed", "same"])
@@ -150,7 +169,8 @@ def gen_seq(r, tier):
         calls.append((n, lin, circ, quat, w, style))
         parts.append("%d %d %d %d %s" % (n, lin, circ, quat, " ".join(hexd(x) for x in w)))
     line = "seq %d %d %s %d %s" % (seed, kind, hexd(ratio), ncalls, " ".join(parts))
-    return line, {"op": "seq", "style": "seq-" + shape, "n": max(ns), "quat": 0, "circ": 0, "kind": kind, "ratio": ratio, "seed": seed, "calls": calls}
+    er, es = seq_effective(kind, ratio, seed)
+    return line, {"op": "seq", "style": "seq-" + shape, "n": max(ns), "quat": 0, "circ": 0, "kind": kind, "ratio": er, "seed": es, "calls": calls}
 
 
 def parse_seq(line):
@@ -160,7 +180,8 @@ def parse_seq(line):
     for _ in range(ncalls):
         n, lin, circ, quat = [int(x) for x in t[p:p + 4]]; p += 4
         calls.append((n, lin, circ, quat, [unhex(x) for x in t[p:p + n]], "replay")); p += n
-    return {"op": "seq", "style": "seq-replay", "n": max(c[0] for c in calls), "quat": 0, "circ": 0, "kind": kind, "ratio": ratio, "seed": seed, "calls": calls}
+    er, es = seq_effective(kind, ratio, seed)
+    return {"op": "seq", "style": "seq-replay", "n": max(c[0] for c in calls), "quat": 0, "circ": 0, "kind": kind, "ratio": er, "seed": es, "calls": calls}
 
 
 def expand(cases, hout):
@@ -174,7 +195,7 @@ def expand(cases, hout):
         calls = meta["calls"]
         ok = blocks[0].split()[:1] == ["ok"] and len(blocks) == len(calls) + 1
         for c, (n, lin, circ, quat, w, style) in enumerate(calls):
-            op = "rwp" if meta["kind"] == 1 else "rs"
+            op = "rwp" if meta["kind"] % 100 in PRIOR_KINDS else "rs"
             vline = "%s %d %d %d %d %d %s%s" % (op, meta["seed"], n, lin, circ, quat, (hexd(meta["ratio"]) + " ") if op == "rwp" else "", " ".join(hexd(x) for x in w))
             vmeta = {"op": op, "style": "%s/call%d%s" % (meta["style"], c, "" if c == 0 else "+"), "n": n, "quat": quat, "circ": circ,
                      "real_line": line, "call": c, "kind": meta["kind"]}
@@ -588,7 +609,13 @@ def run(ctx):
         except (IndexError, ValueError) as ex:
             probs = [("prop", "malformed-output", "harness output not parseable (%s): %s" % (ex, h[:120]))]
         if "call" in meta:
-            probs = [(kind, key2, "call %d on one %s object: %s" % (meta["call"], "ResamplingWithPrior" if meta["kind"] == 1 else "Resampling", what)) for kind, key2, what in probs]
+            kname = KIND_NAMES.get(meta["kind"] % 100, "?") + (" handed over after the first call" if meta["kind"] >= 100 else "")
+            probs = [(kind, key2, "call %d on one object [%s]: %s" % (meta["call"], kname, what)) for kind, key2, what in probs]
+            if meta["kind"] % 100 in (7, 13):
+                # one stable key for the whole class: the move-assigned object does not have the source's configuration
+                probs = [(kind, "rwp-move-assign-config" if kind == "prop" else key2, what) for kind, key2, what in probs]
+            if meta["call"] == 0:
+                stats["object_kind:" + kname] = stats.get("object_kind:" + kname, 0) + 1
         for kind, key2, what in probs:
             (corr_bad if kind == "corr" else prop_bad).append((key2, what, meta.get("real_line", line), h))
     prop_bad.sort(key=lambda v: len(v[2]))          # report the smallest failing input of each kind
@@ -607,7 +634,7 @@ def run(ctx):
     ctx.coverage.update({
         "evaluations": len(cases), "input_lines": n_inputs, "distinct_nontrivial": len(nontrivial & distinct),
         "rule": "systematic resampling (rs) and prior-mixing resampling (rwp) on seeded random log-weight vectors: uniform, one-hot, exact zeros (-inf), "
-                "object-level sequences (seq: ONE Resampling / ResamplingWithPrior / copy-constructed / move-assigned object serving 2..5 successive calls with different N, layouts and weights, twin generator in lock-step, every predicate per call), spanning 300 orders of magnitude, dominated, ties, near 1/N, deliberately sub-normalised (clamp branch), crafted u_0 == c_0 boundary, "
+                "object-level sequences (seq: ONE object built by each constructor overload of Resampling / ResamplingWithPrior, also obtained by copy / move construction / assignment before or after its first call, used through Resampling*, serving 2..5 successive calls with different N, layouts and weights, twin generator in lock-step, every predicate per call), spanning 300 orders of magnitude, dominated, ties, near 1/N, deliberately sub-normalised (clamp branch), crafted u_0 == c_0 boundary, "
                 "N in 1..%d, random 32-bit seeds, layouts lin 0..3 / circ 0..2 / quaternion, ratios in [0,1); non-trivial = N > 1; distinct = distinct input lines"
                 % (200 if ctx.quick() else 400),
         "samples": [cases[0][0][:300], cases[len(cases) // 2][0][:300], lines[-1][:300]],
